@@ -315,6 +315,7 @@ type replayOutcome struct {
 	Panic    string   `json:"panic"`    // uncaught panic (message + in-module frames)
 	Assume   bool     `json:"assume"`   // the inputs violate an assumption of the harness
 	Finished bool     `json:"finished"` // the harness ran to its end
+	Hang     bool     `json:"hang"`     // the harness did not return within the hang limit
 }
 
 func relPkgDir(pkg string) string { return strings.TrimPrefix(pkg, "./") }
@@ -440,6 +441,10 @@ func reproduces(v replayDoc, o replayOutcome) bool {
 		}
 		return false
 	case "crash":
+		if o.Hang {
+			// the engine reports a deadlock as a crash; natively the run blocks for good
+			return strings.Contains(v.Msg, "deadlock")
+		}
 		return o.Panic != ""
 	case "race":
 		for _, id := range o.Failed {
